@@ -107,6 +107,9 @@ SimOps == {"ed_mul_sim", "ed_mul_sim_basic", "ed_mul_sim_trick", "ed_mul_sim_int
 (* the Montgomery representation in Montgomery builds - not RFC 8032's     *)
 (* parity of x); what C17 claims is the round trip, judged on compound     *)
 (* events (pack then unpack, write then read) for P and -P alike.          *)
+(* Encodings are canonical: the neutral element is the single byte 0 only  *)
+(* (02 || 1, 04 || 1 || 0 are refused), and for x = 0 (y = -1) only the    *)
+(* clear bit is accepted (ed_upk returns 0 for the other one).             *)
 (***************************************************************************)
 Sub(s, i, j) == IF i > j THEN <<>> ELSE SubSeq(s, i, j)
 AllZero(s) == \A i \in 1..Len(s) : s[i] = 0
@@ -137,11 +140,15 @@ ReadValid(e, bin) ==
         n == Len(bin)
     IN  IF n = 1 THEN bin[1] = 0
         ELSE IF n = e.fb + 1 THEN
-             LET y == BFromBE(Sub(bin, 2, n)) IN bin[1] \in {2, 3} /\ BLt(y, c.p) /\ EHasX(y, c)
+             LET y == BFromBE(Sub(bin, 2, n)) IN
+             /\ bin[1] \in {2, 3} /\ BLt(y, c.p) /\ EHasX(y, c)
+             /\ y # <<1>>                                          \* the neutral element is the single byte 0 only
+             /\ (EXSquared(y, c) = <<>> => bin[1] = 2)             \* x = 0 has no "other sign"
         ELSE IF n = 2 * e.fb + 1 THEN
              LET y == BFromBE(Sub(bin, 2, e.fb + 1))
                  x == BFromBE(Sub(bin, e.fb + 2, n))
-             IN  bin[1] = 4 /\ BLt(y, c.p) /\ BLt(x, c.p) /\ EOnCurve(EPt(x, y), c)
+             IN  /\ bin[1] = 4 /\ BLt(y, c.p) /\ BLt(x, c.p) /\ EOnCurve(EPt(x, y), c)
+                 /\ ~EIsO(EPt(x, y))
         ELSE FALSE
 
 (* the packed form of a point: y kept, z = 1, x reduced to one raw bit *)
@@ -231,13 +238,17 @@ EdAccept(e) ==
       [] e.op = "ed_pck" ->
             /\ RepOk(e, e.P, IF e.add = 3 THEN 3 ELSE 1) /\ OnC(e, e.P) /\ Ok(e)
             /\ PackedOf(e, e.R, e.P)
-      [] e.op = "ed_upk" ->           \* both bits: R for the bit given, R2 for the other one
-            LET y == FAbs(e, e.P.y) IN
-            /\ ECanon(e, e.P) /\ EHasX(y, c) /\ Ok(e) /\ e.ret = 1 /\ e.ret2 = 1
-            /\ RepPoint(e, e.R, EdAbs(e, e.R), e.add) /\ RepPoint(e, e.R2, EdAbs(e, e.R2), e.add)
-            /\ ZVal(e, e.R) = <<1>> /\ ZVal(e, e.R2) = <<1>>
-            /\ EIsUpkOf(EdAbs(e, e.R), y, c) /\ EIsUpkOf(EdAbs(e, e.R2), y, c)
-            /\ EEq(EdAbs(e, e.R2), ENeg(EdAbs(e, e.R), c))
+      [] e.op = "ed_upk" ->           \* both bits: R, ret for the bit given, R2, ret2 for the other one
+            LET y == FAbs(e, e.P.y)
+                b == IF BNorm(e.P.x) = <<>> THEN 0 ELSE 1
+                Good(R, ret) == /\ ret = 1 /\ RepPoint(e, R, EdAbs(e, R), e.add) /\ ZVal(e, R) = <<1>>
+                                /\ EIsUpkOf(EdAbs(e, R), y, c)
+            IN  /\ ECanon(e, e.P) /\ EHasX(y, c) /\ Ok(e)
+                /\ IF EXSquared(y, c) = <<>>
+                   THEN \* x = 0 (y = 1, y = -1): one decompression, with the bit clear; the other bit is refused
+                        IF b = 0 THEN Good(e.R, e.ret) /\ e.ret2 = 0 ELSE e.ret = 0 /\ Good(e.R2, e.ret2)
+                   ELSE /\ Good(e.R, e.ret) /\ Good(e.R2, e.ret2)
+                        /\ EEq(EdAbs(e, e.R2), ENeg(EdAbs(e, e.R), c))
       [] e.op = "ed_pck_upk" ->       \* round trip
             /\ RepOk(e, e.P, IF e.add = 3 THEN 3 ELSE 1) /\ OnC(e, e.P) /\ Ok(e) /\ e.ret = 1
             /\ PackedOf(e, e.Q, e.P)
